@@ -15,6 +15,7 @@ import (
 	"regexp"
 	"sort"
 	"strings"
+	"sync"
 	"time"
 
 	"github.com/opencontainers/go-digest"
@@ -48,6 +49,7 @@ type World struct {
 	S      *olareg.Server
 	Sh     *olareg.Server // shadow instance (Conf.Shadow)
 	ShPanic string
+	mu      sync.Mutex // guards Dead / AutoViol when scenario threads report handler panics
 	Cfg    config.Config
 	Slots  map[string]string // session slot -> id (for canonical dumps)
 	M      any               // reference model (check specific)
@@ -272,7 +274,10 @@ func (c *CancelCtx) Cancel() {
 }
 
 func (w *World) DoNoQuiesce(r Req) (resp Resp) {
-	w.nreq++
+	inThread := vrt.Cur() > 0 // scenario threads share the world: they do not touch its bookkeeping fields
+	if !inThread {
+		w.nreq++
+	}
 	u := &url.URL{Path: r.Path, RawQuery: r.Query}
 	req := &http.Request{
 		Method:     r.Method,
@@ -329,11 +334,13 @@ func (w *World) DoNoQuiesce(r Req) (resp Resp) {
 		resp.H = res.Header
 		resp.Body = rec.Body.Bytes()
 	} else {
+		w.mu.Lock()
+		defer w.mu.Unlock()
 		w.Dead = "panic: " + firstLine(resp.Panic)
 		top := resp.PanicAt
 		w.AutoViol = append(w.AutoViol, V("no-panic", "panic:"+top, "handler panicked on %s %s?%s: %s", r.Method, r.Path, r.Query, resp.Panic))
 	}
-	if w.Sh != nil {
+	if w.Sh != nil && !inThread {
 		func() {
 			defer func() {
 				if p := recover(); p != nil {
@@ -355,6 +362,9 @@ func (w *World) DoNoQuiesce(r Req) (resp Resp) {
 	if w.Conf != nil && w.Conf.Step > 0 && vrt.Cur() <= 0 {
 		vrt.Quiesce()
 		vrt.Advance(w.Conf.Step, false)
+	}
+	if inThread && !w.Verbose {
+		return resp
 	}
 	w.LastResp = resp
 	if w.Verbose {
